@@ -28,6 +28,8 @@ func checkC09(p *load.Program, r *kit.Report) {
 	r.Rule("TIP-BOUND", "header(), Hash() and GetHeaders() fall back to the header files only for heights that were compared with the tip (height <= longest.Height()) and only after longest.AtHeight(height) answered nil; stale file entries are never served in place of memory", 6)
 	r.Rule("PRUNE-TRIPLE", "Prune deletes heightsMap entries of headers[:count], keeps headers[count:] and adds count to offset — the same count", 1)
 	r.Rule("SHRINK-SIBLING", "every function that re-slices Branch.headers also deletes the dropped hashes from heightsMap", 2)
+	r.Rule("FRESH-MAP", "every Branch object created in the headers package (NewBranch, CopyEmpty, LoadBranch, …) gets a heightsMap of its own: a make(map…) stored into the field, also after a whole-struct copy of another Branch", 3)
+	checkFreshMap(p, r, "FRESH-MAP")
 	r.Rule("FLAG-RULE", "the in-most-work-chain flag of CheckHeader/GetHeader is decided by comparing the hash with the most-work chain's header at that height (repo.longest.AtHeight(height).Hash.Equal(&hash) in memory, header(height).BlockHash().Equal(&hash) on the height-map arm), never by identity of the containing branch or by membership of the long-lived height map", 4)
 	r.Rule("LOOKUP-SHAPE", "PreviousHash returns AtHeight(height-1) of the branch Find returned and answers `none` only when Find or that AtHeight has nothing; header/Hash/GetHeaders read record height - file·headersPerFile of file height/headersPerFile", 5)
 	r.Rule("LOCKSET", "every exported Repository method that touches branches/longest/heights/invalidHashes/newHeadersChannels does so only after taking the repository mutex", 10)
@@ -694,4 +696,117 @@ func counterRange(f *ssa.Function, lin *kit.LinEval, idx ssa.Value, at ssa.Instr
 		return
 	}
 	return lin.Of(init), lin.Of(bound), true
+}
+
+// checkFreshMap: every Branch object created in the package owns its heightsMap. A new Branch that
+// escapes the function (returned or stored) gets the field from a make(map…) of its own; a
+// whole-struct copy of another Branch (`result := b`) shares the source's map, so it must be
+// followed by such a store on every path before the object leaves. Two branches sharing one map
+// answer Find for each other's headers (after Consolidate the new main branch then "contains" the
+// displaced tail of the old one, and headers that build on it are refused as unlinked).
+func checkFreshMap(p *load.Program, r *kit.Report, rule string) {
+	hmF := p.Field(H, "Branch", "heightsMap")
+	if hmF == nil {
+		r.Unknown(rule, "Branch.heightsMap", "-", "field not found")
+		return
+	}
+	k := newKeyer()
+	n := 0
+	for _, f := range pkgFuncs(p, H) {
+		if strings.HasPrefix(p.FileOf(f.Pos()), "headers/test_helpers.go") || strings.HasSuffix(p.FileOf(f.Pos()), "_test.go") {
+			continue
+		}
+		kit.AllInstrs(f, func(in ssa.Instruction) {
+			a, ok := in.(*ssa.Alloc)
+			if !ok {
+				return
+			}
+			pt, ok := a.Type().Underlying().(*types.Pointer)
+			if !ok {
+				return
+			}
+			named, ok := pt.Elem().(*types.Named)
+			if !ok || named.Obj().Name() != "Branch" || named.Obj().Pkg() == nil || named.Obj().Pkg().Path() != H {
+				return
+			}
+			// does the object leave the function?
+			escapes := false
+			seen := map[ssa.Value]bool{}
+			var follow func(v ssa.Value)
+			follow = func(v ssa.Value) {
+				if seen[v] || v.Referrers() == nil {
+					return
+				}
+				seen[v] = true
+				for _, ref := range *v.Referrers() {
+					switch x := ref.(type) {
+					case *ssa.Return:
+						escapes = true
+					case *ssa.Store:
+						if x.Val == v {
+							escapes = true
+						}
+					case *ssa.MakeInterface:
+						escapes = true
+					case *ssa.Phi:
+						follow(x)
+					case *ssa.MapUpdate:
+						if x.Value == v {
+							escapes = true
+						}
+					}
+				}
+			}
+			follow(a)
+			if !escapes {
+				return
+			}
+			var copies, fresh []ssa.Instruction
+			shared := ""
+			for _, ref := range *a.Referrers() {
+				switch x := ref.(type) {
+				case *ssa.Store:
+					if x.Addr == ssa.Value(a) {
+						// whole-struct store: a zero value / fresh literal is fine, a copy of an
+						// existing Branch shares its map
+						if _, isConst := x.Val.(*ssa.Const); !isConst {
+							copies = append(copies, x)
+						}
+					}
+				case *ssa.FieldAddr:
+					if fl, _ := kit.FieldOfAddr(x); fl != hmF {
+						continue
+					}
+					for _, r2 := range *x.Referrers() {
+						if st, ok := r2.(*ssa.Store); ok && st.Addr == ssa.Value(x) {
+							if _, isMake := kit.Strip(st.Val).(*ssa.MakeMap); isMake {
+								fresh = append(fresh, st)
+							} else {
+								shared = "heightsMap of the new branch is " + describe(kit.Strip(st.Val)) + " (stored at " + posOf(p, st) + "), not a map of its own"
+							}
+						}
+					}
+				}
+			}
+			n++
+			bad := shared
+			for _, c := range copies {
+				rr := kit.Reach(f, kit.After(c), kit.Opts{StopAt: kit.InstrSet(fresh...)})
+				for _, ret := range kit.Returns(f) {
+					if rr.Has(ret) && bad == "" {
+						bad = "the new branch is a copy of an existing Branch (" + posOf(p, c) + ") and leaves the function without a heightsMap of its own: both branches use one map, so Find on either answers for the other's headers"
+					}
+				}
+			}
+			if len(copies) == 0 && len(fresh) == 0 && shared == "" {
+				// literal without the field: nil map — reads are fine, the first write panics; other
+				// rules (HEIGHT-LABEL) require the writes, so report it here
+				bad = "the new branch gets no heightsMap"
+			}
+			r.Check(bad == "", rule, k.key(kit.ShortID(kit.FuncID(f))+"/new-branch-map"), posOf(p, a), "the new Branch gets a fresh heightsMap", bad)
+		})
+	}
+	if n < 3 {
+		r.Unknown(rule, "Branch/constructors", "-", "expected at least 3 sites that create a Branch, found %d", n)
+	}
 }
